@@ -197,10 +197,15 @@ fn gen_notification(t: &mut Tape) -> NotificationFile {
     let snapshot = UriAndHash::new(gen_https(t, &host), gen_hash(t));
     let other_host = t.chance(1, 4);
     let serials = gen_delta_serials(t, serial);
+    let recase = t.chance(1, 4);
     let deltas = serials
         .into_iter()
         .map(|s| {
-            let h = if other_host && t.chance(1, 3) { gen_host(t) } else { host.clone() };
+            let mut h = if other_host && t.chance(1, 3) { gen_host(t) } else { host.clone() };
+            if recase && t.chance(1, 2) {
+                // same authority, different letter case
+                h = h.chars().map(|c| if t.chance(1, 2) { c.to_ascii_uppercase() } else { c.to_ascii_lowercase() }).collect();
+            }
             DeltaInfo::new(s, gen_https(t, &h), gen_hash(t))
         })
         .collect();
@@ -269,6 +274,33 @@ impl Doc {
             Doc::Notification(_) => NotificationFile::parse(r).map(Doc::Notification).map_err(|e| e.to_string()),
             Doc::Snapshot(_) => Snapshot::parse(r).map(Doc::Snapshot).map_err(|e| e.to_string()),
             Doc::Delta(_) => Delta::parse(r).map(Doc::Delta).map_err(|e| e.to_string()),
+        }
+    }
+    /// Equality as the statement means it: the library's `Eq` compares URI
+    /// scheme and authority case-insensitively, so URIs are compared as text
+    /// in addition.
+    fn same_as(&self, other: &Doc) -> bool {
+        if self != other {
+            return false;
+        }
+        match (self, other) {
+            (Doc::Notification(a), Doc::Notification(b)) => {
+                a.snapshot().uri().as_str() == b.snapshot().uri().as_str()
+                    && a.deltas().len() == b.deltas().len()
+                    && a.deltas().iter().zip(b.deltas()).all(|(x, y)| x.uri().as_str() == y.uri().as_str())
+            }
+            (Doc::Snapshot(a), Doc::Snapshot(b)) => {
+                a.elements().iter().zip(b.elements()).all(|(x, y)| x.uri().as_str() == y.uri().as_str())
+            }
+            (Doc::Delta(a), Doc::Delta(b)) => a.elements().iter().zip(b.elements()).all(|(x, y)| {
+                let u = |e: &DeltaElement| match e {
+                    DeltaElement::Publish(p) => p.uri().as_str().to_string(),
+                    DeltaElement::Update(p) => p.uri().as_str().to_string(),
+                    DeltaElement::Withdraw(p) => p.uri().as_str().to_string(),
+                };
+                u(x) == u(y)
+            }),
+            _ => false,
         }
     }
     fn summary(&self) -> String {
@@ -399,6 +431,7 @@ fn plain_read_cfg() -> ReadCfg {
 }
 
 fn reader(ctx: &Arc<SimCtx>, bytes: &Arc<Vec<u8>>, cfg: ReadCfg) -> SimBufRead {
+    ctx.reset_polls();
     SimBufRead::new(ctx, Gen::Finite { data: bytes.clone(), pos: 0 }, cfg)
 }
 
@@ -435,17 +468,33 @@ impl C09 {
         let res = guarded("write_xml", || Ok(doc.write(&mut w)))?;
         counters.add("fault_eintr_on_write", w.eintr_fired);
         counters.add("fault_short_write", w.short_fired);
+        if res.is_ok() && w.failed_calls.is_empty() && (w.eintr_fired > 0 || w.short_fired > 0) {
+            counters.bump("probe_written_despite_eintr_or_short_writes");
+        }
         ctx.ev(10, w.accepted.len() as u64, || {
             format!("A: wrote {} -> {:?}, {} bytes in {} write calls (cfg {:?})", doc.summary(), res.as_ref().map_err(|e| e.to_string()), w.accepted.len(), w.calls, wcfg)
         });
-        if let Err(e) = res {
-            return Err(Violation::new(
-                "write-failed",
-                doc.kind(),
-                format!("write_xml failed on a healthy sink (short writes {}, EINTR {}): {}", wcfg.short_writes, wcfg.eintr, e),
-            ));
-        }
-        let bytes = Arc::new(w.accepted);
+        let bytes = match res {
+            Ok(()) => Arc::new(w.accepted),
+            Err(e) => {
+                // With EINTR or short writes in play a failing write_xml means
+                // "no file was written", which the statement does not forbid
+                // (it is counted). On a sink that accepts everything it must
+                // succeed: otherwise this value has no file at all.
+                counters.bump("probe_write_failed_under_eintr_or_short_writes");
+                ctx.ev(12, 0, || format!("A: write_xml failed under benign faults: {}", e));
+                let mut clean = SimWrite::new(ctx, WriteCfg { short_writes: false, eintr: 0, fault: WriteFault::None, fault_kind: std::io::ErrorKind::Other });
+                let res = guarded("write_xml", || Ok(doc.write(&mut clean)))?;
+                if let Err(e) = res {
+                    return Err(Violation::new(
+                        "write-failed",
+                        doc.kind(),
+                        format!("write_xml fails on a sink that accepts every write: {}", e),
+                    ));
+                }
+                Arc::new(clean.accepted)
+            }
+        };
 
         // parse back under benign read behaviours
         let rcfg = { let mut t = ctx.tape.lock().unwrap(); gen_read_cfg(&mut t, true) };
@@ -459,7 +508,7 @@ impl C09 {
         }
         ctx.ev(11, rcfg.chunk_max as u64, || format!("A: parsed back with {:?} -> {}", rcfg, parsed.as_ref().map(|_| "Ok".to_string()).unwrap_or_else(|e| format!("Err({})", e))));
         match parsed {
-            Ok(ref p) if p == doc => {}
+            Ok(ref p) if p.same_as(doc) => {}
             Ok(p) => {
                 return Err(Violation::new(
                     "roundtrip-mismatch",
@@ -569,12 +618,24 @@ impl C09 {
             ));
         }
         // has_matching_origins <=> all authorities equal the base's
-        let base = if ctx.chance(1, 2) {
-            n.snapshot().uri().clone()
-        } else {
-            uri::Https::from_str("https://rrdp.example.net/notification.xml").unwrap()
+        let base = match ctx.choose(3) {
+            0 => n.snapshot().uri().clone(),
+            1 => {
+                // the snapshot's authority in another letter case
+                let text = n.snapshot().uri().as_str();
+                let rest = &text["https://".len()..];
+                let host = rest.split('/').next().unwrap_or("");
+                let flipped: String = host.chars().map(|c| if c.is_ascii_lowercase() { c.to_ascii_uppercase() } else { c.to_ascii_lowercase() }).collect();
+                uri::Https::from_string(format!("https://{}/notification.xml", flipped)).unwrap_or_else(|_| n.snapshot().uri().clone())
+            }
+            _ => uri::Https::from_str("https://rrdp.example.net/notification.xml").unwrap(),
         };
-        let auth = |u: &uri::Https| u.authority().to_ascii_lowercase();
+        // authority by slicing the text (not through the library's accessor)
+        let auth = |u: &uri::Https| {
+            let text = u.as_str();
+            let rest = &text["https://".len()..];
+            rest.split('/').next().unwrap_or("").to_ascii_lowercase()
+        };
         let want = auth(n.snapshot().uri()) == auth(&base) && n.deltas().iter().all(|d| auth(d.uri()) == auth(&base));
         let got = guarded("has_matching_origins", || Ok(n.has_matching_origins(&base)))?;
         if got != want {
@@ -804,27 +865,256 @@ impl C09 {
                     _ => false,
                 };
                 if !same {
+                    // The statement lets the parser return an error or a value
+                    // for such a stream; it does not promise that the outcome is
+                    // independent of chunk boundaries (quick-xml, for one, only
+                    // strips a byte-order mark that arrives within the first
+                    // chunk). Counted and logged, not alarmed.
+                    counters.bump("probe_chunk_dependent_outcome_on_damaged_input");
                     let show = |r: &Result<Doc, String>| match r {
                         Ok(d) => format!("Ok({})", d.summary()),
                         Err(e) => format!("Err({})", e),
                     };
-                    let lo = at.saturating_sub(30);
-                    let hi = (at + 40).min(damaged.len());
-                    return Err(Violation::new(
-                        "chunk-dependent-parse",
-                        doc.kind(),
-                        format!(
-                            "a damaged {} (kind {} at byte {}) parses as {} when read with {:?} but as {} with {:?}; bytes around the damage: {:?}",
-                            doc.kind(), what, at, show(ref_res), ref_cfg, show(res), cfg,
-                            String::from_utf8_lossy(&damaged[lo..hi])
-                        ),
-                    ));
+                    ctx.ev(40, at as u64, || format!("E: chunk-dependent outcome: {} with {:?} vs {} with {:?}", show(ref_res), ref_cfg, show(res), cfg));
                 }
             }
             match ref_res {
                 Ok(d) if d == doc => counters.bump("probe_damage_harmless"),
                 Ok(_) => counters.bump("probe_damage_changed_value"),
                 Err(_) => counters.bump("probe_damage_rejected"),
+            }
+        }
+        Ok(())
+    }
+}
+
+//------------ Class F: foreign but valid syntax ---------------------------------------------
+
+const NS_URI: &str = "http://www.ripe.net/rpki/rrdp";
+
+/// Renders `doc` the way some *other* RFC 8182 publisher might: byte-order
+/// mark, XML declaration, DOCTYPE, comments, single-quoted attributes in any
+/// order, character references, a namespace prefix, both empty-element
+/// forms, CR LF line ends and line-wrapped base64.
+fn render_foreign(doc: &Doc, t: &mut Tape) -> Vec<u8> {
+    use base64_local::encode as b64;
+    let mut out = String::new();
+    let bom = t.chance(1, 4);
+    let nl = if t.chance(1, 3) { "\r\n" } else { "\n" };
+    if t.chance(1, 2) {
+        let q = if t.chance(1, 2) { '\'' } else { '"' };
+        out.push_str(&format!("<?xml version={q}1.0{q} encoding={q}UTF-8{q}?>{nl}"));
+    }
+    if t.chance(1, 4) {
+        out.push_str(&format!("<!-- generated by another publisher -->{nl}"));
+    }
+    if t.chance(1, 5) {
+        out.push_str(&format!("<!DOCTYPE {}>{nl}", doc.kind()));
+    }
+    let prefix = if t.chance(1, 4) { "r:" } else { "" };
+    let esc = |v: &str, q: char, t: &mut Tape| -> String {
+        let mut s = String::new();
+        for ch in v.chars() {
+            match ch {
+                '&' => s.push_str("&amp;"),
+                '<' => s.push_str("&lt;"),
+                '"' if q == '"' => s.push_str("&quot;"),
+                '\'' if q == '\'' => s.push_str("&apos;"),
+                c if c.is_ascii_alphanumeric() && t.chance(1, 40) => s.push_str(&format!("&#x{:X};", c as u32)),
+                c => s.push(c),
+            }
+        }
+        s
+    };
+    let tag = |name: &str, attrs: Vec<(&str, String)>, t: &mut Tape| -> String {
+        let mut attrs = attrs;
+        // attribute order is not significant in XML
+        for i in (1..attrs.len()).rev() {
+            let j = t.choose(i as u64 + 1) as usize;
+            attrs.swap(i, j);
+        }
+        let mut s = format!("<{}{}", prefix, name);
+        for (k, v) in attrs {
+            let q = if t.chance(1, 2) { '\'' } else { '"' };
+            let ws = *t.pick(&[" ", "  ", "\n    ", "\t"]);
+            let eq = *t.pick(&["=", " = ", "= "]);
+            // (no character references inside the namespace name: namespace
+            // matching is done on the raw attribute text by quick-xml)
+            let val = if k.starts_with("xmlns") { v.clone() } else { esc(&v, q, t) };
+            s.push_str(&format!("{ws}{k}{eq}{q}{}{q}", val));
+        }
+        if t.chance(1, 4) {
+            s.push(' ');
+        }
+        s
+    };
+    let xmlns = if prefix.is_empty() { ("xmlns", NS_URI.to_string()) } else { ("xmlns:r", NS_URI.to_string()) };
+    let wrap = |data: &[u8], t: &mut Tape| -> String {
+        let enc = b64(data);
+        let width = *t.pick(&[usize::MAX, 76, 64, 4, 1]);
+        let mut s = String::new();
+        for (i, ch) in enc.chars().enumerate() {
+            if width != usize::MAX && i > 0 && i % width == 0 {
+                s.push_str(nl);
+                if t.chance(1, 2) {
+                    s.push_str("  ");
+                }
+            }
+            s.push(ch);
+        }
+        s
+    };
+    let comment = |t: &mut Tape| -> String {
+        if t.chance(1, 6) { format!("{nl}<!-- note -->") } else { String::new() }
+    };
+    match doc {
+        Doc::Notification(n) => {
+            let open = tag("notification", vec![xmlns, ("version", "1".into()), ("session_id", n.session_id().to_string()), ("serial", n.serial().to_string())], t);
+            out.push_str(&open);
+            out.push('>');
+            out.push_str(&comment(t));
+            let mut children = vec![tag("snapshot", vec![("uri", n.snapshot().uri().to_string()), ("hash", n.snapshot().hash().to_string())], t)];
+            for d in n.deltas() {
+                children.push(tag("delta", vec![("serial", d.serial().to_string()), ("uri", d.uri().to_string()), ("hash", d.hash().to_string())], t));
+            }
+            for c in children {
+                out.push_str(nl);
+                out.push_str(&c);
+                if t.chance(1, 2) {
+                    out.push_str("/>");
+                } else {
+                    let name = if c.contains("snapshot") && !c.contains("delta") { "snapshot" } else if c.starts_with(&format!("<{}snapshot", prefix)) { "snapshot" } else { "delta" };
+                    out.push_str(&format!("></{}{}>", prefix, name));
+                }
+                out.push_str(&comment(t));
+            }
+            out.push_str(&format!("{nl}</{}notification>", prefix));
+        }
+        Doc::Snapshot(sn) => {
+            let open = tag("snapshot", vec![xmlns, ("version", "1".into()), ("session_id", sn.session_id().to_string()), ("serial", sn.serial().to_string())], t);
+            out.push_str(&open);
+            if sn.elements().is_empty() && t.chance(1, 2) {
+                out.push_str("/>");
+            } else {
+                out.push('>');
+                for e in sn.elements() {
+                    out.push_str(nl);
+                    out.push_str(&tag("publish", vec![("uri", e.uri().to_string())], t));
+                    if e.data().is_empty() && t.chance(1, 2) {
+                        out.push_str("/>");
+                    } else {
+                        out.push('>');
+                        out.push_str(&wrap(e.data(), t));
+                        out.push_str(&format!("</{}publish>", prefix));
+                    }
+                    out.push_str(&comment(t));
+                }
+                out.push_str(&format!("{nl}</{}snapshot>", prefix));
+            }
+        }
+        Doc::Delta(d) => {
+            let open = tag("delta", vec![xmlns, ("version", "1".into()), ("session_id", d.session_id().to_string()), ("serial", d.serial().to_string())], t);
+            out.push_str(&open);
+            out.push('>');
+            for e in d.elements() {
+                out.push_str(nl);
+                match e {
+                    DeltaElement::Publish(p) => {
+                        out.push_str(&tag("publish", vec![("uri", p.uri().to_string())], t));
+                        out.push('>');
+                        out.push_str(&wrap(p.data(), t));
+                        out.push_str(&format!("</{}publish>", prefix));
+                    }
+                    DeltaElement::Update(u) => {
+                        out.push_str(&tag("publish", vec![("uri", u.uri().to_string()), ("hash", u.hash().to_string())], t));
+                        out.push('>');
+                        out.push_str(&wrap(u.data(), t));
+                        out.push_str(&format!("</{}publish>", prefix));
+                    }
+                    DeltaElement::Withdraw(w) => {
+                        out.push_str(&tag("withdraw", vec![("uri", w.uri().to_string()), ("hash", w.hash().to_string())], t));
+                        if t.chance(1, 2) { out.push_str("/>") } else { out.push_str(&format!("></{}withdraw>", prefix)) }
+                    }
+                }
+                out.push_str(&comment(t));
+            }
+            out.push_str(&format!("{nl}</{}delta>", prefix));
+        }
+    }
+    if t.chance(1, 3) {
+        out.push_str(nl);
+    }
+    if t.chance(1, 6) {
+        out.push_str("<!-- end -->");
+    }
+    let mut bytes = Vec::new();
+    if bom {
+        bytes.extend_from_slice(&[0xEF, 0xBB, 0xBF]);
+    }
+    bytes.extend_from_slice(out.as_bytes());
+    bytes
+}
+
+/// A tiny independent base64 encoder (standard alphabet, padded).
+mod base64_local {
+    const ALPHABET: &[u8; 64] = b"ABCDEFGHIJKLMNOPQRSTUVWXYZabcdefghijklmnopqrstuvwxyz0123456789+/";
+    pub fn encode(data: &[u8]) -> String {
+        let mut s = String::with_capacity(data.len().div_ceil(3) * 4);
+        for chunk in data.chunks(3) {
+            let b = [chunk[0], *chunk.get(1).unwrap_or(&0), *chunk.get(2).unwrap_or(&0)];
+            let n = ((b[0] as u32) << 16) | ((b[1] as u32) << 8) | b[2] as u32;
+            s.push(ALPHABET[(n >> 18) as usize & 63] as char);
+            s.push(ALPHABET[(n >> 12) as usize & 63] as char);
+            s.push(if chunk.len() > 1 { ALPHABET[(n >> 6) as usize & 63] as char } else { '=' });
+            s.push(if chunk.len() > 2 { ALPHABET[n as usize & 63] as char } else { '=' });
+        }
+        s
+    }
+}
+
+impl C09 {
+    /// Class F: the same value written by a foreign publisher in other (valid)
+    /// XML syntax, read under arbitrary chunking. The statement only demands
+    /// "an error or a value", no panic, and nothing read beyond the stream; how
+    /// often the value comes back equal is reported.
+    fn class_f(&self, ctx: &Arc<SimCtx>, doc: &Doc, counters: &mut Counters, out: &mut RunOut) -> Result<(), Violation> {
+        for _ in 0..6 {
+            let (bytes, rcfg) = {
+                let mut t = ctx.tape.lock().unwrap();
+                (Arc::new(render_foreign(doc, &mut t)), gen_read_cfg(&mut t, true))
+            };
+            let streaming = !matches!(doc, Doc::Notification(_)) && ctx.chance(1, 2);
+            let mut r = reader(ctx, &bytes, rcfg);
+            let res = guarded("parse-foreign", || {
+                Ok(if streaming {
+                    let mut rec = Recorder { ctx: ctx.clone(), recs: Vec::new() };
+                    let res = match doc {
+                        Doc::Snapshot(_) => ProcessSnapshot::process(&mut rec, &mut r).map_err(|e| e.to_string()),
+                        _ => ProcessDelta::process(&mut rec, &mut r).map_err(|e| e.to_string()),
+                    };
+                    res.map(|_| rec.recs == expected_recs(doc))
+                } else {
+                    doc.parse_same(&mut r).map(|d| d.same_as(doc))
+                })
+            })?;
+            out.evaluations += 1;
+            out.sub_sigs.push(fnv(&bytes) ^ 0xF0);
+            counters.bump("fault_foreign_publisher_syntax");
+            if r.over_consumed > 0 {
+                return Err(Violation::new("over-consume", "foreign", format!("the parser consumed {} bytes more than fill_buf had exposed", r.over_consumed)));
+            }
+            ctx.ev(50, bytes.len() as u64, || {
+                format!("F: foreign rendering ({} bytes, starts {:?}) read with {:?} -> {:?}", bytes.len(), String::from_utf8_lossy(&bytes[..bytes.len().min(60)]), rcfg, res)
+            });
+            match res {
+                Ok(true) => counters.bump("probe_foreign_syntax_same_value"),
+                Ok(false) => counters.bump("probe_foreign_syntax_different_value"),
+                Err(e) => {
+                    counters.bump("probe_foreign_syntax_rejected");
+                    if std::env::var("SIM_DEBUG_FOREIGN").is_ok() {
+                        eprintln!("FOREIGN-REJECTED {} :: {:?} :: {}", e, rcfg, String::from_utf8_lossy(&bytes[..bytes.len().min(400)]).replace('\n', "\\n").replace('\r', "\\r"));
+                    }
+                }
             }
         }
         Ok(())
@@ -841,6 +1131,14 @@ enum Pos {
     ChildAttrs,
     ChildContent,
     AfterRootEnd,
+    /// After the end of the first child element (between siblings).
+    AfterFirstChild,
+    /// Inside the start tag of the last child element.
+    LastChildAttrs,
+    /// As the content of a `<withdraw>` element of a delta.
+    WithdrawContent,
+    /// Inside an end tag (`</publish` or the root's), before its `>`.
+    InEndTag,
 }
 
 #[derive(Clone, Copy, Debug, PartialEq, Eq)]
@@ -864,13 +1162,19 @@ enum Hostile {
     EntityInAttrValue,
 }
 
-const ALL_POS: [Pos; 6] = [Pos::Prolog, Pos::RootAttrs, Pos::AfterRootStart, Pos::ChildAttrs, Pos::ChildContent, Pos::AfterRootEnd];
+const ALL_POS: [Pos; 10] = [
+    Pos::Prolog, Pos::RootAttrs, Pos::AfterRootStart, Pos::ChildAttrs, Pos::ChildContent, Pos::AfterRootEnd,
+    Pos::AfterFirstChild, Pos::LastChildAttrs, Pos::WithdrawContent, Pos::InEndTag,
+];
 
 fn kinds_for(pos: Pos) -> &'static [Hostile] {
     use Hostile::*;
     match pos {
         Pos::Prolog => &[Whitespace, Comment, ManyComments, ProcessingInstruction, DoctypeEntity, ElementName, Text],
-        Pos::RootAttrs | Pos::ChildAttrs => &[AttrName, AttrValue, WhitespaceInTag, ManyAttributes, NamespaceDecls, EntityInAttrValue],
+        Pos::RootAttrs | Pos::ChildAttrs | Pos::LastChildAttrs => &[AttrName, AttrValue, WhitespaceInTag, ManyAttributes, NamespaceDecls, EntityInAttrValue],
+        Pos::AfterFirstChild => &[Whitespace, Comment, ManyComments, Text, Cdata, ProcessingInstruction, ElementName, EntityRefs],
+        Pos::WithdrawContent => &[Whitespace, Comment, ManyComments, Text, Base64Text, Cdata],
+        Pos::InEndTag => &[WhitespaceInTag, AttrName],
         Pos::AfterRootStart => &[Whitespace, Comment, ManyComments, Text, Cdata, ProcessingInstruction, Nested, EntityRefs, ElementName],
         Pos::ChildContent => &[Base64Text, Whitespace, Comment, ManyComments, Cdata, EntityRefs, Nested],
         Pos::AfterRootEnd => &[Whitespace, Comment, ManyComments, Text, ProcessingInstruction, ElementName],
@@ -901,25 +1205,33 @@ fn hostile_bytes(kind: Hostile) -> (&'static [u8], &'static [u8]) {
     }
 }
 
-/// Finds the offset where the valid prefix ends for `pos`.
-fn prefix_end(doc_kind: &str, bytes: &[u8], pos: Pos) -> Option<usize> {
+/// Builds the valid prefix after which the hostile run starts for `pos`.
+fn hostile_prefix(doc_kind: &str, bytes: &[u8], pos: Pos) -> Option<Vec<u8>> {
     let find = |needle: &[u8], from: usize| -> Option<usize> {
+        if from > bytes.len() {
+            return None;
+        }
         bytes[from..].windows(needle.len()).position(|w| w == needle).map(|i| i + from)
+    };
+    let rfind = |needle: &[u8]| -> Option<usize> {
+        bytes.windows(needle.len()).rposition(|w| w == needle)
     };
     let root_open = format!("<{}", doc_kind);
     let root = find(root_open.as_bytes(), 0)?;
     let root_tag_end = find(b">", root)?;
+    let first_child = || -> Option<usize> {
+        let child = find(b"<", root_tag_end + 1)?;
+        if bytes.get(child + 1) == Some(&b'/') { None } else { Some(child) }
+    };
+    let upto = |n: usize| Some(bytes[..n].to_vec());
     match pos {
-        Pos::Prolog => Some(0),
-        Pos::RootAttrs => Some(root + root_open.len()),
-        Pos::AfterRootStart => Some(root_tag_end + 1),
+        Pos::Prolog => upto(0),
+        Pos::RootAttrs => upto(root + root_open.len()),
+        Pos::AfterRootStart => upto(root_tag_end + 1),
         Pos::ChildAttrs => {
-            let child = find(b"<", root_tag_end + 1)?;
-            if bytes.get(child + 1) == Some(&b'/') {
-                return None; // no child element
-            }
+            let child = first_child()?;
             let name_end = bytes[child..].iter().position(|b| *b == b' ' || *b == b'>' || *b == b'/')? + child;
-            Some(name_end)
+            upto(name_end)
         }
         Pos::ChildContent => {
             let child = find(b"<publish", root_tag_end + 1)?;
@@ -927,9 +1239,54 @@ fn prefix_end(doc_kind: &str, bytes: &[u8], pos: Pos) -> Option<usize> {
             if bytes[end - 1] == b'/' {
                 return None;
             }
-            Some(end + 1)
+            upto(end + 1)
         }
-        Pos::AfterRootEnd => Some(bytes.len()),
+        Pos::AfterRootEnd => upto(bytes.len()),
+        Pos::AfterFirstChild => {
+            let child = first_child()?;
+            let tag_end = find(b">", child)?;
+            if bytes[tag_end - 1] == b'/' {
+                upto(tag_end + 1)
+            } else {
+                // <publish ...> text </publish>
+                let close = find(b"</", tag_end)?;
+                let close_end = find(b">", close)?;
+                upto(close_end + 1)
+            }
+        }
+        Pos::LastChildAttrs => {
+            // the last '<' that opens an element (not an end tag)
+            let mut i = bytes.len();
+            let child = loop {
+                i = bytes[..i].iter().rposition(|b| *b == b'<')?;
+                if bytes.get(i + 1) != Some(&b'/') {
+                    break i;
+                }
+            };
+            if child <= root {
+                return None;
+            }
+            let name_end = bytes[child..].iter().position(|b| *b == b' ' || *b == b'>' || *b == b'/')? + child;
+            upto(name_end)
+        }
+        Pos::WithdrawContent => {
+            let w = find(b"<withdraw", root_tag_end + 1)?;
+            let end = find(b"/>", w)?;
+            let mut v = bytes[..end].to_vec();
+            v.push(b'>');
+            Some(v)
+        }
+        Pos::InEndTag => {
+            // prefer a child's end tag, else the root's
+            match find(b"</publish", root_tag_end + 1) {
+                Some(c) => upto(c + b"</publish".len()),
+                None => {
+                    let c = rfind(b"</")?;
+                    let name_end = bytes[c..].iter().position(|b| *b == b'>')? + c;
+                    upto(name_end)
+                }
+            }
+        }
     }
 }
 
@@ -946,12 +1303,11 @@ impl C09 {
         counters: &mut Counters,
         out: &mut RunOut,
     ) -> Result<bool, Violation> {
-        let l0 = match prefix_end(doc.kind(), bytes, pos) {
+        let mut prefix = match hostile_prefix(doc.kind(), bytes, pos) {
             Some(p) => p,
             None => return Ok(false),
         };
         let (opener, unit) = hostile_bytes(kind);
-        let mut prefix = bytes[..l0].to_vec();
         prefix.extend_from_slice(opener);
         let l0 = prefix.len() as u64;
         // the limit in force at that position (DESIGN 4.4)
@@ -968,11 +1324,13 @@ impl C09 {
                 chunk_max,
                 eintr: if t.chance(1, 4) { 50 } else { 0 },
                 fail_at: None,
-                bound: Some(l0 + limit + 2 * chunk_max as u64),
+                // "one buffer" is at least a common BufReader capacity
+                bound: Some(l0 + limit + 2 * (chunk_max as u64).max(65536)),
             }
         };
         let max = l0 + 3 * limit;
         let gen = Gen::Hostile { prefix: Arc::new(prefix), unit: unit.to_vec(), pos: 0, max };
+        ctx.reset_polls();
         let mut r = SimBufRead::new(ctx, gen, rcfg);
         let mark = heap_mark();
         let streaming = !matches!(doc, Doc::Notification(_)) && ctx.chance(1, 2);
@@ -1001,38 +1359,111 @@ impl C09 {
             )
         });
         let key = format!("{}/{:?}/{:?}", doc.kind(), pos, kind);
-        if let Some(p) = r.bound_breached {
+        if r.over_consumed > 0 {
+            return Err(Violation::new(
+                "over-consume",
+                key,
+                format!("the parser consumed {} bytes more than fill_buf had exposed (BufRead contract)", r.over_consumed),
+            ));
+        }
+        let breached = r.bound_breached.or(if r.pulled > rcfg.bound.unwrap() { Some(r.pulled) } else { None });
+        if let Some(p) = breached {
             return Err(Violation::new(
                 "read-bound",
                 key,
                 format!(
-                    "hostile {:?} at {:?} of a {}: parser pulled {} bytes; bound is L0 {} + limit {} + 2 x chunk {} = {}",
+                    "hostile {:?} at {:?} of a {}: parser pulled {} bytes; bound is L0 {} + limit {} + 2 x max(chunk {}, 64 KiB) = {}",
                     kind, pos, doc.kind(), p, l0, limit, rcfg.chunk_max, rcfg.bound.unwrap()
                 ),
             ));
         }
-        if let Ok(v) = &res {
-            return Err(Violation::new(
-                "hostile-accepted",
-                key,
-                format!("endless {:?} at {:?} of a {} was accepted: {}", kind, pos, doc.kind(), v),
-            ));
+        if res.is_ok() {
+            // "returns an error or a value": a parser that stops reading
+            // within the bound and returns a value has not broken the statement
+            // (e.g. one that does not look beyond the root's end tag).
+            counters.bump("probe_hostile_stream_yielded_value");
         }
         if r.pulled >= l0 + limit {
             counters.bump(if limit == MAX_FILE_SIZE { "probe_file_limit_tripped" } else { "probe_header_limit_tripped" });
         } else {
             counters.bump("probe_hostile_rejected_early");
         }
-        // coarse heap bound: catches accumulation the byte monitor cannot see
-        let heap_bound = 16 * (limit as usize + rcfg.chunk_max) + (4 << 20);
-        if peak > heap_bound {
-            return Err(Violation::new(
-                "heap-bound",
-                key,
-                format!("hostile {:?} at {:?}: peak heap {} bytes exceeds the coarse bound {}", kind, pos, peak, heap_bound),
-            ));
+        // heap: measured and reported; the statement bounds bytes read, not memory
+        let heap_ref = 16 * (limit as usize + rcfg.chunk_max) + (4 << 20);
+        if peak > heap_ref {
+            counters.bump("probe_heap_above_16x_limit");
         }
         Ok(true)
+    }
+}
+
+impl C09 {
+    /// The limits approached from the valid side: (0) one object whose
+    /// element stays just below the 100 MB per-element limit must round-trip;
+    /// (1) one whose element exceeds it must be cut off within the bound; (2) a
+    /// snapshot of 110 one-megabyte objects - 147 MB in total, every element far
+    /// below the limit - must round-trip, i.e. the limit is per element.
+    fn large_valid_case(&self, ctx: &Arc<SimCtx>, which: u64, counters: &mut Counters, out: &mut RunOut) -> Result<(), Violation> {
+        let fill = |n: usize, seed: u8| -> Bytes {
+            let mut v = vec![0u8; n];
+            for (i, b) in v.iter_mut().enumerate() {
+                *b = seed.wrapping_add((i as u8).wrapping_mul(13)) ^ ((i >> 11) as u8);
+            }
+            Bytes::from(v)
+        };
+        let uri = |i: usize| uri::Rsync::from_string(format!("rsync://rpki.example.net/repo/obj-{}.roa", i)).unwrap();
+        let doc = match which {
+            0 => Doc::Snapshot(Snapshot::new(Uuid::nil(), 1, vec![PublishElement::new(uri(0), fill(73_000_000, 1))])),
+            1 => Doc::Snapshot(Snapshot::new(Uuid::nil(), 1, vec![PublishElement::new(uri(0), fill(76_000_000, 2))])),
+            _ => Doc::Snapshot(Snapshot::new(Uuid::nil(), 1, (0..110).map(|i| PublishElement::new(uri(i), fill(1_000_000, i as u8))).collect())),
+        };
+        let mut w = SimWrite::new(ctx, WriteCfg { short_writes: false, eintr: 0, fault: WriteFault::None, fault_kind: std::io::ErrorKind::Other });
+        guarded("write_xml-large", || Ok(doc.write(&mut w)))?.map_err(|e| Violation::new("write-failed", "large", e.to_string()))?;
+        let bytes = Arc::new(std::mem::take(&mut w.accepted));
+        let l0 = hostile_prefix("snapshot", &bytes, Pos::AfterRootStart).map(|p| p.len() as u64).unwrap_or(0);
+        let chunk_max = 1usize << 16;
+        let rcfg = ReadCfg { mode: 0, chunk_max, eintr: 0, fail_at: None, bound: if which == 1 { Some(l0 + MAX_FILE_SIZE + 2 * 65536) } else { None } };
+        let mut r = reader(ctx, &bytes, rcfg);
+        let mut rec = Recorder { ctx: ctx.clone(), recs: Vec::new() };
+        let res = guarded("process-large", || Ok(ProcessSnapshot::process(&mut rec, &mut r).map_err(|e| e.to_string())))?;
+        out.evaluations += 1;
+        ctx.ev(30, which, || format!("large valid case {}: document {} bytes, pulled {}, result {:?}", which, bytes.len(), r.pulled, res.as_ref().map_err(|e| e.chars().take(60).collect::<String>())));
+        match which {
+            1 => {
+                counters.bump("fault_valid_element_above_file_limit");
+                let breached = r.bound_breached.or(if r.pulled > rcfg.bound.unwrap() { Some(r.pulled) } else { None });
+                if let Some(p) = breached {
+                    return Err(Violation::new(
+                        "read-bound",
+                        "snapshot/valid-element-over-limit",
+                        format!("a publish element of {} bytes (limit {}): parser pulled {} bytes, bound {}", bytes.len(), MAX_FILE_SIZE, p, rcfg.bound.unwrap()),
+                    ));
+                }
+                if res.is_ok() {
+                    counters.bump("probe_hostile_stream_yielded_value");
+                } else if r.pulled >= l0 + MAX_FILE_SIZE {
+                    counters.bump("probe_file_limit_tripped");
+                }
+            }
+            _ => {
+                counters.bump(if which == 0 { "probe_valid_element_just_below_file_limit" } else { "probe_valid_document_larger_than_file_limit" });
+                match res {
+                    Err(e) => {
+                        return Err(Violation::new(
+                            "roundtrip-rejected",
+                            if which == 0 { "snapshot/element-just-below-limit" } else { "snapshot/document-above-limit-elements-below" },
+                            format!("a library-written snapshot of {} bytes whose largest element is below the {} byte limit is rejected: {}", bytes.len(), MAX_FILE_SIZE, e),
+                        ));
+                    }
+                    Ok(()) => {
+                        if rec.recs != expected_recs(&doc) {
+                            return Err(Violation::new("roundtrip-mismatch", "snapshot/large", "large snapshot parses back differently".to_string()));
+                        }
+                    }
+                }
+            }
+        }
+        Ok(())
     }
 }
 
@@ -1041,17 +1472,21 @@ impl C09 {
 impl C09 {
     fn run_inner(&self, kind: RunKind, tier: Tier, ctx: &Arc<SimCtx>, counters: &mut Counters, out: &mut RunOut) -> Result<(), Violation> {
         match kind {
+            RunKind::Sweep(i) if i >= 3 * 10 * 17 => {
+                out.nontrivial = true;
+                self.large_valid_case(ctx, i - 3 * 10 * 17, counters, out)
+            }
             RunKind::Sweep(i) => {
-                // hostile grid: doc kind (3) x position (6) x hostile kind (17, those applicable)
+                // hostile grid: doc kind (3) x position (10) x hostile kind (17, those applicable)
                 let doc_kind = i % 3;
-                let pos = ALL_POS[((i / 3) % 6) as usize];
+                let pos = ALL_POS[((i / 3) % 10) as usize];
                 let all = [
                     Hostile::Whitespace, Hostile::Comment, Hostile::ManyComments, Hostile::ProcessingInstruction,
                     Hostile::DoctypeEntity, Hostile::ElementName, Hostile::AttrName, Hostile::AttrValue,
                     Hostile::WhitespaceInTag, Hostile::Text, Hostile::Cdata, Hostile::Nested, Hostile::EntityRefs,
                     Hostile::Base64Text, Hostile::ManyAttributes, Hostile::NamespaceDecls, Hostile::EntityInAttrValue,
                 ];
-                let hk = all[((i / 18) % 17) as usize];
+                let hk = all[((i / 30) % 17) as usize];
                 if !kinds_for(pos).contains(&hk) {
                     return Ok(());
                 }
@@ -1132,14 +1567,15 @@ impl C09 {
                 let mut w = SimWrite::new(ctx, WriteCfg { short_writes: false, eintr: 0, fault: WriteFault::None, fault_kind: std::io::ErrorKind::Other });
                 let _ = doc.write(&mut w);
                 let clean_calls = w.calls;
-                match ctx.choose(4) {
+                match ctx.choose(5) {
                     0 => self.class_b(ctx, &doc, &bytes, counters, out)?,
                     1 => self.class_c(ctx, &doc, clean_calls, counters, out)?,
                     2 => self.class_e(ctx, &doc, &bytes, counters, out)?,
+                    3 => self.class_f(ctx, &doc, counters, out)?,
                     _ => {
                         // hostile takeover of this very document (1 MB positions
                         // always; 100 MB positions rarely, they cost ~0.2 s)
-                        let pos = ALL_POS[ctx.choose(6) as usize];
+                        let pos = ALL_POS[ctx.choose(10) as usize];
                         let kinds = kinds_for(pos);
                         let hk = kinds[ctx.choose(kinds.len() as u64) as usize];
                         let heavy = !matches!(doc, Doc::Notification(_)) && !matches!(pos, Pos::Prolog | Pos::RootAttrs);
@@ -1160,7 +1596,7 @@ impl Scenario for C09 {
     fn level(&self) -> &'static str { "exploration" }
 
     fn sweep_len(&self, _tier: Tier) -> u64 {
-        3 * 6 * 17
+        3 * 10 * 17 + 3
     }
 
     fn random_runs(&self, tier: Tier) -> u64 {
@@ -1169,14 +1605,17 @@ impl Scenario for C09 {
 
     fn run(&self, kind: RunKind, tier: Tier, tape: Tape, log: bool) -> (RunOut, Tape) {
         let _ = crate::exec::take_panics();
-        let ctx = Arc::new(SimCtx::new(tape, log, u64::MAX / 2));
+        // run-away guard per parse/write (reset by `reader()` and the writers)
+        let ctx = Arc::new(SimCtx::new(tape, log, 2_000_000_000));
         let mut out = RunOut::default();
         let mut counters = Counters::default();
-        let res = self.run_inner(kind, tier, &ctx, &mut counters, &mut out);
+        let res = match std::panic::catch_unwind(std::panic::AssertUnwindSafe(|| self.run_inner(kind, tier, &ctx, &mut counters, &mut out))) {
+            Ok(r) => r,
+            Err(p) => Err(crate::exec::violation_from_panic("run", p)),
+        };
         out.violation = res.err();
         counters.merge(&ctx.counters.lock().unwrap());
         out.counters = counters;
-        out.evaluations = out.evaluations.max(1);
         let mut lg = ctx.log.lock().unwrap();
         out.sig = lg.sig;
         out.log = std::mem::take(&mut lg.lines);
@@ -1196,9 +1635,13 @@ impl Scenario for C09 {
          streaming processors, then one of class B (EOF or hard read error at EVERY offset of documents \
          up to 1500 bytes, 300 sampled offsets up to 20 kB, 40 beyond), class C (one-shot or sticky write error at EVERY \
          write call index up to 400 calls), class E (stored bytes damaged - bit flips, overwritten, lost or \
-         duplicated ranges, spliced-in markup - then parsed under four chunkings which must all agree) or class D (the document taken over at a structural position \
+         duplicated ranges, spliced-in markup - then parsed under four chunkings: no panic, nothing read past the \
+         end; disagreement between chunkings is counted), class F (the value re-rendered as a foreign publisher \
+         might - BOM, XML declaration, DOCTYPE, comments, single quotes, attribute order, character references, \
+         namespace prefix, both empty-element forms, CR LF, wrapped base64 - no panic; equal/different/rejected \
+         counted) or class D (the document taken over at a structural position \
          by an endless hostile run with the bytes-pulled monitor armed). The sweep walks document kind x \
-         position (6) x hostile kind (17) deterministically. evaluations = parses/writes executed; \
+         position (10) x hostile kind (17) deterministically. evaluations = parses/writes executed; \
          distinct = distinct hash of (document bytes or prefix, fault kind, fault offset, chunk size) \
          counted in a bitmap (lower bound); a run is non-trivial if a library writer or parser ran."
     }
@@ -1234,6 +1677,12 @@ impl Scenario for C09 {
     fn vacuous(&self, totals: &Counters) -> Option<String> {
         if totals.get("probe_header_limit_tripped") == 0 {
             return Some("no hostile stream ever tripped the header limit".into());
+        }
+        if totals.get("probe_file_limit_tripped") == 0 {
+            return Some("no stream ever tripped the 100 MB file limit".into());
+        }
+        if totals.get("probe_valid_element_just_below_file_limit") == 0 || totals.get("probe_valid_document_larger_than_file_limit") == 0 {
+            return Some("the limits were never approached from the valid side".into());
         }
         None
     }
